@@ -162,6 +162,8 @@ def run_job(job, findings_open):
                 lv, _, _, ls = core.decide(c, lz, extra=list(extra))
                 r["seconds"] += ls
                 r["lemmas"] = r.get("lemmas", 0) + 1
+                if os.environ.get("SYMX_DEBUG"):
+                    print(f"[lemma] {ob.name} #{len(extra)} {lv} {ls:.1f}s {str(lz)[:120]}", file=sys.stderr, flush=True)
                 if lv == "unsat":
                     extra.append(lz)
                     r["lemmas_proved"] = r.get("lemmas_proved", 0) + 1
